@@ -209,6 +209,54 @@ pub fn run_copia(args: &[&str], cwd: &Path) -> Run {
     Run { code: o.status.code(), signal: o.status.signal(), stdout: String::from_utf8_lossy(&o.stdout).into(), stderr: String::from_utf8_lossy(&o.stderr).into() }
 }
 
+/// ONE engine object used for a series of delta calls against different signatures (v1, then v2 = v1 with a block
+/// replaced by a weak-checksum twin, then v1 again ...): whatever an engine keeps from one call to the next must not
+/// change the result; every delta must equal the one a fresh engine computes and must patch to its source.
+fn engine_reuse(seed: u64, idx: u64, rep: &mut Report) {
+    use copia::{CopiaSync, Sync};
+    use std::io::Cursor;
+    let mut rng = Rng::derive(seed, 111, idx);
+    rep.evaluations += 1;
+    let bs = *rng.pick(&[512usize, 1024, 2048, 4096]);
+    let nb = rng.range(2, 6);
+    let v1 = rng.bytes(nb * bs);
+    let k = rng.range(0, nb - 1);
+    let Some(twin) = crate::gen::weak_twin(&mut rng, &v1[k * bs..(k + 1) * bs]) else { return };
+    let mut v2 = v1.clone();
+    v2[k * bs..(k + 1) * bs].copy_from_slice(&twin);
+    let mut v3 = v1.clone();
+    v3.extend_from_slice(&rng.bytes(300));
+    let versions = [&v1, &v2, &v3];
+    let engine = CopiaSync::with_block_size(bs);
+    let ctx = json!({"seed": seed, "case": idx, "family": "engine-reuse", "bs": bs, "blocks": nb, "twin_block": k});
+    for step in 0..rng.range(3, 7) {
+        let basis = versions[rng.below(3) as usize];
+        let source = versions[rng.below(3) as usize];
+        let r = crate::util::guarded(|| {
+            let sig = engine.signature(Cursor::new(basis.as_slice()))?;
+            let d = engine.delta(Cursor::new(source.as_slice()), &sig)?;
+            let fresh = CopiaSync::with_block_size(bs).delta(Cursor::new(source.as_slice()), &sig)?;
+            let mut out = Vec::new();
+            let pr = engine.patch(&mut Cursor::new(basis.as_slice()), &d, &mut out);
+            Ok::<_, copia::CopiaError>((d == fresh, pr.is_ok(), out == **source))
+        });
+        rep.count("engine_reuse_steps", 1);
+        match r {
+            Caught::Ok(Ok((same, ok, eq))) => {
+                if !same {
+                    rep.violation("C01|engine-reuse|delta-differs-from-a-fresh-engine's", json!({"ctx": ctx, "step": step}));
+                }
+                if !ok || !eq {
+                    rep.violation("C01|engine-reuse|patch-failed-or-output-differs", json!({"ctx": ctx, "step": step, "patch_ok": ok, "output_equals_source": eq}));
+                }
+            }
+            Caught::Ok(Err(e)) => rep.violation("C01|engine-reuse|error", json!({"ctx": ctx, "step": step, "err": e.to_string()})),
+            Caught::Panicked(m) => rep.violation("C01|engine-reuse|panic", json!({"ctx": ctx, "step": step, "panic": m})),
+        }
+    }
+    rep.distinct.insert(format!("engine-reuse|bs{bs}|nb{nb}"));
+}
+
 /// The same command with the LD_PRELOAD shim killing it (SIGKILL) before its k-th file-system-mutating call.
 /// None when the shim is not available (or under valgrind, which has its own preload).
 pub fn run_copia_killed(args: &[&str], cwd: &Path, k: u64) -> Option<Run> {
@@ -346,6 +394,9 @@ pub fn run(seed: u64, thorough: bool, cases: Option<u64>, work: &Path, stage: &s
     if stage == "lib" || stage == "all" {
         let n = cases.unwrap_or(if thorough { 40_000 } else { 1500 });
         rep.merge(par_cases(n, |i, r| lib_one(seed, i, thorough, r)));
+        if !crate::util::tiny() {
+            rep.merge(par_cases(n / 10, |i, r| engine_reuse(seed, i, r)));
+        }
     }
     if stage == "cli" || stage == "all" {
         let n = if thorough { 3000 } else { 200 };
